@@ -1271,6 +1271,18 @@ class PolyhedralTermList(TermList):  # noqa: WPS338
             result = result.substitute_variable(var, sols[var])
         logging.debug("Term %s transformed to %s", term, result)
 
+        if strategy == 5:
+            # The rows taken from the LP-active set carry no sign information, so the substitution may move
+            # the term in the wrong direction: keep the result only if it is valid in the context.
+            result_tl = PolyhedralTermList([result])
+            term_tl = PolyhedralTermList([term.copy()])
+            if refine:
+                valid = (context | result_tl).refines(term_tl)
+            else:
+                valid = (context | term_tl).refines(result_tl)
+            if not valid:
+                raise ValueError("Could not transform term {}".format(term))
+
         return result
 
     @staticmethod
